@@ -121,8 +121,18 @@ func (core *JApiCore) checkPathSchema(s *jschema.JSchema) error {
 }
 
 func (core *JApiCore) checkPathSchemaRoot(s *jschema.JSchema) error {
+	return core.checkPathSchemaRootOnce(s, map[string]struct{}{})
+}
+
+// checkPathSchemaRootOnce follows the user types that stand for the root of the Path schema; seen holds the names already
+// followed (types that are each other, kept finite by "nullable", describe no object).
+func (core *JApiCore) checkPathSchemaRootOnce(s *jschema.JSchema, seen map[string]struct{}) error {
 	if s.ASTNode.TokenType == schema.TokenTypeShortcut {
 		typeName := s.ASTNode.SchemaType
+		if _, ok := seen[typeName]; ok {
+			return errors.New(jerr.PathObjectErr)
+		}
+		seen[typeName] = struct{}{}
 		if typeName == "mixed" {
 			return errors.New(jerr.PathOrErr)
 		}
@@ -137,7 +147,7 @@ func (core *JApiCore) checkPathSchemaRoot(s *jschema.JSchema) error {
 			return errors.New(jerr.PathObjectErr)
 		}
 
-		return core.checkPathSchemaRoot(es.JSchema)
+		return core.checkPathSchemaRootOnce(es.JSchema, seen)
 	}
 
 	if s.ASTNode.TokenType != schema.TokenTypeObject {
